@@ -45,6 +45,9 @@ def _tree_hash(repo):
     return h.hexdigest()[:24]
 
 
+LAST_RC = 1
+
+
 class Ctx:
     def __init__(self, tier="quick", seed=0, repo=REPO):
         self.tier = tier
@@ -183,15 +186,18 @@ def finish(ctx, res, meta):
                 seen_known.add(full)
         else:
             new.append((rule, key, detail, loc))
+    global LAST_RC
+    LAST_RC = 1 if new else 0
+    lines = []
     for full, k in kf:
-        print("KNOWN-FINDING: property=%s %s -- %s" % (pid, full, k.get("what", "")))
+        lines.append("KNOWN-FINDING: property=%s %s -- %s" % (pid, full, k.get("what", "")))
     nob = len(res.obs)
     ndis = sum(1 for o in res.obs if o[2])
     wall = time.time() - ctx.t0
-    print("[%s] tier=%s obligations=%d discharged=%d known-findings=%d violations=%d functions=%d wall=%.1fs" % (
+    lines.append("[%s] tier=%s obligations=%d discharged=%d known-findings=%d violations=%d functions=%d wall=%.1fs" % (
         pid, ctx.tier, nob, ndis, len(kf), len(new), len(res.functions), wall))
     for rule, (n, d) in res.by_rule.items():
-        print("   rule %-12s instances=%-5d discharged=%d" % (rule, n, d))
+        lines.append("   rule %-12s instances=%-5d discharged=%d" % (rule, n, d))
     rc = 0
     if new:
         rc = 1
@@ -203,10 +209,10 @@ def finish(ctx, res, meta):
         with open(rp, "w") as f:
             json.dump(payload, f, indent=1)
         for (r, k, d, l) in new[:8]:
-            print("  violation: %s | %s\n      at %s\n      %s" % (r, k, fmt_loc(l), d))
+            lines.append("  violation: %s | %s\n      at %s\n      %s" % (r, k, fmt_loc(l), d))
         if len(new) > 8:
-            print("  ... %d more (see replay file)" % (len(new) - 8))
-        print("VIOLATION property=%s replay=%s" % (pid, rp))
+            lines.append("  ... %d more (see replay file)" % (len(new) - 8))
+        lines.append("VIOLATION property=%s replay=%s" % (pid, rp))
     # evidence
     level = meta["level"]
     distinct = len({(o[0], o[1]) for o in res.obs})
@@ -242,4 +248,8 @@ def finish(ctx, res, meta):
     os.makedirs(os.path.join(OUT_DIR, "evidence"), exist_ok=True)
     with open(os.path.join(OUT_DIR, "evidence", "%s.json" % pid), "w") as f:
         json.dump(ev, f, indent=1, sort_keys=True)
+    # the VIOLATION line first would be lost behind a long report if the reader stops early: print it last but
+    # make sure everything is flushed in one write
+    sys.stdout.write("\n".join(lines) + "\n")
+    sys.stdout.flush()
     return rc
